@@ -257,6 +257,8 @@ bool HPProc::OpenDocument(string solutionFile)
         if (labellist[sElem->lbl]->IsExternal)
             externalElements++;
     }
+    // (when every element lies in the exterior region there is no element with that index)
+    if (externalElements>=(int)meshelems.size()) externalElements=0;
     d_PlotBounds[1][0]=abs(getMeshElement(externalElements)->D);
     d_PlotBounds[1][1]=d_PlotBounds[1][0];
     d_PlotBounds[2][0]=abs(E(getMeshElement(0)));
